@@ -20,6 +20,10 @@ Proved lemmas (unbounded, induction with ghosts on the real elaborated converter
   * UpConverterReadLanes: the read chunk register is one-hot at the converter position, a narrow read beat is lane n(i) of
     the wide word at the head of the read-data queue and is offered only for a requested chunk, word and command entry are
     released exactly at the last position.
+  * UpConverterCommands: `sel` is exactly the set of chunks of the user commands accepted into the current group, all of one
+    wide word and direction; the memory-side command and the queued (sel, we) entry describe exactly that group.
+Executed on the real function over the property's whole configuration grid (labelled bounded): Crossbar.get_port -- the
+converted port covers the same bytes as the crossbar port, through the right converter / ratio / reverse option / mode.
 Bounded (labelled bounded): UpConverterDrain -- after K quiet, responsive cycles following a flush- or cmd.last-terminated
 burst nothing is left inside the up-converter (every accepted read answered, every accepted write issued with its data).
 """
@@ -51,6 +55,8 @@ ASSUMPTIONS = [
     "clauses only",
     "LiteX StrideConverter / _UpConverter / _DownConverter / SyncFIFO are verified as elaborated inside the converters (not "
     "trusted), internal signals bound by name via constructor-local capture",
+    "Crossbar.get_port 'Data width conversion': executed on the real function for every ratio / mode / reverse of the "
+    "property's configuration grid (enumeration of a finite domain, labelled bounded), one controller geometry",
     "UpConverterDrain: bounded; restricted to ascending chunks inside a wide word (the unrestricted case is the recorded "
     "finding); write data run-ahead of at most N beats",
 ]
@@ -130,7 +136,6 @@ def conv_contract(cfg):
     for nm, fn in m["read_clauses"].items():
         c.bounded(nm, fn)
     c.bounded("write_data_present_when_memory_takes_it", lambda f: Implies(f.b(pt.wdata.ready), f.b(pt.wdata.valid)))
-    c.bounded("memory_side_command_within_address_space", lambda f: z3.BoolVal(True))
     hitrd = lambda f: And(f.b(pf.rdata.valid), m["rq"].nonempty(f), m["rq"].head(f, "hit") == 1)
     c.cover("a_watched_read_returns_after_a_watched_write", lambda f: And(hitrd(f), m["G"](f, "spec") != init),
             within=cfg.get("depth", 24))
@@ -463,6 +468,112 @@ def up_read_lanes_contract(cfg):
     return c
 
 
+def up_cmd_contract(cfg):
+    """lemmas (unbounded) on the up-converter's command grouping: the chunk set `sel` is exactly the set of chunks of the
+    user commands accepted into the current group, all of them address the same wide word in the same direction, the
+    memory-side command goes to that wide word with that direction, and the (sel, we) entry queued for the data paths
+    describes exactly the group."""
+    h = UpHarness(cfg)
+    pf, pt, L = h.pf, h.pt, h.L
+    r = cfg["to"] // cfg["from"]
+    lr = log2_int(r)
+    free = [pf.cmd.valid, pf.cmd.we, pf.cmd.addr, pf.cmd.last, pf.cmd.first, pf.wdata.data, pf.wdata.we, pf.wdata.valid,
+            pf.rdata.ready, pf.flush, pt.cmd.ready, pt.wdata.ready, pt.rdata.valid, pt.rdata.data]
+    c = Contract("UpConverterCommands", h, free, cfg=cfg)
+    fsm = h.conv.fsm
+    sel, cmd_addr, cmd_we, cb = L["sel"], L["cmd_addr"], L["cmd_we"], L["cmd_buffer"]
+    st = lambda f, *n: state_is(f, fsm, *n)
+    uacc = lambda f: And(f.b(pf.cmd.valid), f.b(pf.cmd.ready))
+    aw = len(pf.cmd.addr)
+    hi = lambda a: z3.Extract(aw - 1, lr, a)
+    onehot = lambda f: BV(1, r) << zext(z3.Extract(lr - 1, 0, f(pf.cmd.addr)), r)
+    c.ghost("gsel", r, 0, lambda f: If_(uacc(f), If_(st(f, "NEW"), onehot(f), f.g.gsel | onehot(f)), f.g.gsel))
+    c.ghost("gwide", aw - lr, 0, lambda f: If_(And(uacc(f), st(f, "NEW")), hi(f(pf.cmd.addr)), f.g.gwide))
+    c.ghost("gwe", 1, 0, lambda f: If_(And(uacc(f), st(f, "NEW")), f(pf.cmd.we), f.g.gwe))
+    c.invariant("group_registers_record_the_accepted_commands", lambda f: And(
+        state_in_range(f, fsm),
+        Implies(Not(st(f, "NEW")), And(f(sel) == f.g.gsel, f.g.gsel != 0, hi(f(cmd_addr)) == f.g.gwide, f(cmd_we) == f.g.gwe))))
+    c.ensures("commands_are_accepted_only_to_open_or_extend_a_group_of_one_wide_word_and_direction", lambda f: Implies(uacc(f), And(
+        st(f, "NEW", "FILL"),
+        Implies(st(f, "FILL"), And(hi(f(pf.cmd.addr)) == f.g.gwide, f(pf.cmd.we) == f.g.gwe, f.g.gsel != 2 ** r - 1)))))
+    c.ensures("memory_side_command_is_the_group_s_wide_word_and_direction", lambda f: Implies(f.b(pt.cmd.valid), And(
+        st(f, "CMD"), f(pt.cmd.addr) == zext(f.g.gwide, len(pt.cmd.addr)) if len(pt.cmd.addr) >= aw - lr
+        else f(pt.cmd.addr) == z3.Extract(len(pt.cmd.addr) - 1, 0, f.g.gwide), f(pt.cmd.we) == f.g.gwe)))
+    c.ensures("queued_entry_describes_exactly_the_group", lambda f: Implies(f.b(cb.sink.valid), And(
+        st(f, "COMMIT"), f(cb.sink.sel) == f.g.gsel, f(cb.sink.we) == f.g.gwe)))
+    c.cover("a_two_chunk_group_is_committed", lambda f: And(f.b(cb.sink.valid), f.g.gsel == 3), within=8)
+    return c
+
+
+# ---- creation of a converted port: LiteDRAMCrossbar.get_port 'Data width conversion' ---------------------------------------
+
+GET_PORT_GRID = [(mode, up, k, rev) for mode in ("both", "read", "write") for up, ks in ((True, (1, 2, 3, 4, 5)), (False, (1, 2, 3)))
+                 for k in ks for rev in (False, True)]          # ratios 1:2..1:32 up, 2:1..8:1 down
+
+
+def _get_port_case(mode, up, k, rev):
+    """calls the real get_port on a real crossbar (controller data width 256 bits); returns a list of failed clauses"""
+    from litedram.common import LiteDRAMInterface
+    from litedram.core.crossbar import LiteDRAMCrossbar
+    s = mk_settings(bankbits=2, rowbits=12, colbits=10, nphases=4, dfi_databits=64, databits=32)
+    itf = LiteDRAMInterface(3, s)
+    with capture_locals(LiteDRAMNativePortConverter.__init__, LiteDRAMNativePortUpConverter.__init__,
+                        LiteDRAMNativePortDownConverter.__init__) as cap:
+        xbar = LiteDRAMCrossbar(itf)
+        cdw = xbar.controller.data_width
+        dw = cdw >> k if up else cdw << k
+        port = xbar.get_port(mode=mode, data_width=dw, reverse=rev)
+    inner = xbar.masters[-1]
+    bad = []
+    byte_bits = lambda p_: p_.address_width + log2_int(p_.data_width // 8)
+    if port.data_width != dw:
+        bad.append("user port has the requested data width")
+    if byte_bits(port) != byte_bits(inner):
+        bad.append("user port covers exactly the byte address space of the controller port (address_width %d at %d bits vs %d at %d bits)"
+                   % (port.address_width, port.data_width, inner.address_width, inner.data_width))
+    if port.mode != mode or inner.mode != mode:
+        bad.append("mode preserved")
+    if inner.data_width != cdw:
+        bad.append("crossbar-side port has the controller width")
+    top = cap.calls.get("LiteDRAMNativePortConverter.__init__", [])
+    if len(top) != 1 or top[0]["port_from"] is not port or top[0]["port_to"] is not inner or bool(top[0]["reverse"]) != rev:
+        bad.append("one converter from the user port to the crossbar port with the requested reverse option")
+    leaf = cap.calls.get("LiteDRAMNativePortUpConverter.__init__" if up else "LiteDRAMNativePortDownConverter.__init__", [])
+    other = cap.calls.get("LiteDRAMNativePortDownConverter.__init__" if up else "LiteDRAMNativePortUpConverter.__init__", [])
+    if len(leaf) != 1 or other or leaf[0]["port_from"] is not port or leaf[0]["port_to"] is not inner \
+            or bool(leaf[0]["reverse"]) != rev or leaf[0]["ratio"] != (1 << k):
+        bad.append("the %s-converter of ratio %d is instantiated between the two ports with the reverse option" % ("up" if up else "down", 1 << k))
+    return bad
+
+
+def get_port_task(cfg, tier):
+    """executed exhaustively over the finite configuration grid of the property (labelled bounded: enumeration, not a proof)"""
+    import json, time
+    from vc.runner import replay_path
+    res = []
+    for mode, up, k, rev in GET_PORT_GRID:
+        t0 = time.time()
+        oid = "C07/Crossbar.get_port[mode=%s,ratio=%s,reverse=%s]/bounded/converted_port_covers_the_same_bytes_through_the_right_converter" % (
+            mode, ("1:%d" if up else "%d:1") % (1 << k), rev)
+        bad = _get_port_case(mode, up, k, rev)
+        r = {"id": oid, "kind": "bounded", "status": "failed" if bad else "bounded-ok", "seconds": round(time.time() - t0, 3),
+             "backend": "native-execution(real get_port, configuration grid)"}
+        if bad:
+            path = replay_path("C07", oid)
+            json.dump({"property": "C07", "obligation": oid, "module": "contracts.c07", "kind": "pyargs",
+                       "args": dict(mode=mode, up=up, k=k, reverse=rev), "failed_clauses": bad}, open(path, "w"), indent=1)
+            r.update(replay=path, reproduced=True, witness=dict(failed_clauses=bad))
+        res.append(r)
+    return {"results": res}
+
+
+def replay(rp):
+    a = rp["args"]
+    bad = _get_port_case(a["mode"], a["up"], a["k"], a["reverse"])
+    print("replay %s: %s" % (rp["obligation"], ("VIOLATED on current tree: " + "; ".join(bad)) if bad else "not violated on current tree"))
+    return 1 if bad else 0
+
+
 UP_LANE_CFGS = [dict(to=16, **{"from": 8}), dict(to=32, **{"from": 8}), dict(to=16, reverse=True, **{"from": 8}),
                 dict(to=32, reverse=True, **{"from": 8}), dict(to=64, reverse=True, **{"from": 16}), dict(to=64, **{"from": 8})]
 UP_CFGS = [dict(to=16, **{"from": 8}), dict(to=32, **{"from": 8}), dict(to=16, reverse=True, **{"from": 8})]
@@ -494,9 +605,11 @@ def tasks(tier):
         d = 3 * (cfg["to"] // cfg["from"]) + 8 + (9 if tier == "quick" else 13)
         out.append(dict(fn="up_drain_contract", cfg=dict(cfg, depth=d), modes=["bounded", "cover"], depth=d, weight=10,
                         timeout_ms=1200000, oneshot=True))
+    out.append(dict(kind="custom", fn="get_port_task", cfg={}, weight=3))
     for cfg in UP_LANE_CFGS:
         out.append(dict(fn="up_write_lanes_contract", cfg=cfg, modes=["inductive", "cover", "difftest"], weight=2))
         out.append(dict(fn="up_read_lanes_contract", cfg=cfg, modes=["inductive", "cover", "difftest"], weight=2))
+        out.append(dict(fn="up_cmd_contract", cfg=cfg, modes=["inductive", "cover", "difftest"], weight=2))
     for cfg in DOWN_DATA_CFGS:
         out.append(dict(fn="down_data_contract", cfg=cfg, modes=["inductive", "cover", "difftest"], weight=2))
     return out
